@@ -117,8 +117,11 @@ def r2(ctx):
         ctx.check(attr in decl_s and attr in reads, "C12.R2", run, "client.%s" % attr, "the copied setting lands in an attribute the connection declares and reads", line=n.lineno)
         # between construction and first use
         ctor = calls_named(run, "ServerClientConnection")
-        rd = [c for c in calls_named(run, "_recv_datagram") if c.lineno > n.lineno]
-        ctx.check(bool(ctor) and ctor[0].lineno < n.lineno and bool(rd), "C12.R2", run, "client.%s is set right after construction, before the first datagram is processed" % attr, line=n.lineno)
+        rcfg2 = cfg_of(run)
+        nn = rcfg2.node_of(n)
+        rd = [c for c in calls_named(run, "_recv_datagram") if nn is not None and rcfg2.dominates(nn.id, rcfg2.node_of(c).id)]
+        ok_c = bool(ctor) and nn is not None and rcfg2.dominates(rcfg2.node_of(ctor[0]).id, nn.id) and rcfg2.node_of(ctor[0]).id != nn.id
+        ctx.check(ok_c and bool(rd), "C12.R2", run, "client.%s is set right after construction, before the first datagram is processed" % attr, line=n.lineno)
     # sweeps read the matching timeout
     tm = {}
     for c in calls_named(run, "timedout"):
